@@ -68,7 +68,8 @@ def make_replay(prop, failure, registry):
                verifier_output=diag.get("rendered"), source_line=diag.get("text"), found_input=False, witness_runs=[])
     if failure.get("scenario"):
         rec["found_input"] = True
-        rec["failing_input"] = dict(kind="cli", scenario=failure["scenario"].get("scenario"), result=failure.get("scenario_result"))
+        sc = failure["scenario"]
+        rec["failing_input"] = dict(kind=sc.get("kind"), scenario=sc.get("scenario"), src=sc.get("src"), opts=sc.get("opts"), range=sc.get("range"), contains=sc.get("contains"), oracle=sc.get("oracle"), result=failure.get("scenario_result"))
         last_found_input = True
         json.dump(rec, open(path, "w"), indent=1)
         return path
